@@ -207,6 +207,8 @@ PROPS = {
             'that count (which is what makes payloads far beyond the capacity arrive piecewise and in order); never more than PIPE_SIZE '
             'bytes queued; EPIPE and nothing queued without a reader. FileBody::poll_read removes the first min(len(buffer), len(queue)) '
             'bytes into the buffer in order, blocks on an empty pipe with a writer, reports end of file without one. '
+            'A reader or writer that is told to wait (Pending) has been registered with the waker it supplied, and whenever bytes '
+            'leave (enter) the queue every registered writer (reader) has been woken: no lost wake-up at the object level. '
             'is_ready_for_reading / is_ready_for_writing agree with those blocking conditions; open / close only count the ends and never '
             'touch the bytes in flight. Together: no byte is lost, duplicated or reordered by the queue itself (lemma_fifo_order). '
             'One level up (yash-env/src/system/virtual/io.rs), the loop of OpenFileDescription::poll_write_full - the write(2) '
@@ -220,7 +222,7 @@ PROPS = {
         'assumptions': [
             'assumed specs: VecDeque::extend / reserve_exact / is_empty, Vec::extend / resize_with; a shared slice yields its elements in order',
             '`for to in buffer` over `&mut [u8]` is checked as `buffer.iter_mut()` (std definition of IntoIterator for &mut [T]; rewrite rule tokens-to-helper)',
-            'core::task::Poll, WakerSet, Weak, Cell, Waker, Inode, UnixStr, PathBuf, RefCell are same-named placeholders (only stored here); waking and registering wakers are opaque',
+            'core::task::Poll, WakerSet, Weak, Cell, Waker, Inode, UnixStr, PathBuf, RefCell are same-named placeholders (only stored here); WakerSet is modelled as a set of waker identities with assumed contracts for insert (adds), wake_all (wakes and empties), is_empty and len; WHEN a woken task runs is not decided',
             'OpenFileDescription reaches its file through Rc<RefCell<Inode>>, which is not modelled: the file behind it is a ghost view, its poll_write step is assumed to append some beginning of the buffer (what the verified FileBody::poll_write does for a FIFO), and the test "is a FIFO" is a helper call',
             'the functions are checked under the precondition that the file is a FIFO holding at most PIPE_SIZE bytes; their Regular/Terminal/Directory/Symlink arms are unreachable under it and unverified',
             'a match arm `A {..} | B {..} => body` is checked as two arms with the same body (rewrite rule or-arm-split)',
